@@ -13,8 +13,10 @@ VARIABLES l, nbad
 
 WideHiTested == 1114111
 
+\* "crash": the call did not return (signal); always a deviation
 Judge(ev) ==
-    IF ev.op \in CTypeOps THEN
+    IF "crash" \in DOMAIN ev THEN "crash"
+    ELSE IF ev.op \in CTypeOps THEN
         IF ev.c \notin CTypeDomain(ev.w, WideHiTested) THEN "harness-pre"
         ELSE IF ev.ret = CType(ev.op, ev.c) THEN "ok" ELSE "ctype"
     ELSE IF ev.op = "div" THEN
@@ -31,7 +33,8 @@ Judge(ev) ==
          ELSE "ok"
 
 Expected(ev) ==
-    IF ev.op \in CTypeOps THEN ToJson([ret |-> CType(ev.op, ev.c)])
+    IF "crash" \in DOMAIN ev THEN "-"
+    ELSE IF ev.op \in CTypeOps THEN ToJson([ret |-> CType(ev.op, ev.c)])
     ELSE IF ev.op = "div" /\ ev.y # 0 THEN ToJson([quot |-> TruncDiv(ev.x, ev.y), rem |-> TruncRem(ev.x, ev.y)])
     ELSE IF ev.op = "labs" THEN ToJson([quot |-> AbsI(ev.x)])
     ELSE IF ev.op \in MemOpsAll /\ Pre(ev.op, ev.w, ev.mem, ev.p, ev.q, ev.n, ev.c)
